@@ -718,6 +718,16 @@ def witness_scenarios():
     W.append({"id": 9003, "family": "witness-var-tsf", "natoms": 2, "mass": [1.0, 1.0], "vars": [v2],
               "biases": [{"kind": "H", "tsf": 1, "vars": [0], "k": 1.0, "centers": [0.0]}], "it0": 0,
               "events": steps([1.0, 2.0, 3.0, 4.0]), "A": [0], "B": []})
+    # (4) the delivered total force is exactly zero: the applied force is not subtracted (C08_total_force_coupling_zero_refuted)
+    vz = {"tsf": 1, "w": 1.0, "extra": ["subtractAppliedForce on", "outputTotalForce on"],
+          "comps": [{"main": [0], "ref": [], "axis": 2, "coeff": 1.0, "np": 1, "onesite": True}]}
+    W.append({"id": 9004, "family": "coupling", "natoms": 2, "mass": [1.0, 1.0], "vars": [vz],
+              "biases": [{"kind": "H", "tsf": 1, "vars": [0], "k": 1.0, "centers": [0.0]},
+                         {"kind": "L", "tsf": 1, "vars": [0], "k": 1.0, "centers": [0.0]}], "it0": 0,
+              "events": [("S", [[0.0, 0.0, 1.0], [0.0, 0.0, 0.0]], [[0.0, 0.0, 1.0], [0.0, 0.0, 0.0]]),
+                         ("S", [[0.0, 0.0, 1.0], [0.0, 0.0, 0.0]], [[0.0, 0.0, 0.5], [0.0, 0.0, 0.0]]),
+                         ("S", [[0.0, 0.0, 1.0], [0.0, 0.0, 0.0]], [[0.0, 0.0, 0.5], [0.0, 0.0, 0.0]])],
+              "A": [0], "B": [1], "samestep": False, "showtf": True})
     return W
 
 
@@ -765,7 +775,12 @@ def oracle_coupling(run, sc, R, tfmodel):
             f = steps[s]["V"][0]["f"]
             got = steps[s + 1]["TF"].get("v0")
             if svals[s] + f == 0.0:
+                # C08_total_force_coupling_zero_refuted (also recorded under C04): nothing is subtracted
                 skipped += 1
+                if got is None or not close(got, svals[s]):
+                    run.violation("pipeline:coupling:zero-total-force",
+                                  "scenario %d run %s: the engine's force at step %d (%r) and the Colvars force (%r) cancel exactly; the total force reported at step %d is %r instead of %r"
+                                  % (sc["id"], t_, s, svals[s], f, s + 1, got, svals[s]), replay_of(sc, {t_: sc["_subsets"][t_]}, {"step_index": s + 1}))
                 continue
             if got is None or not close(got, svals[s]):
                 run.violation("pipeline:coupling:total-force", "scenario %d run %s: total force reported at step %d is %r, the engine's own force at step %d was %r (Colvars applied %r)"
